@@ -44,6 +44,12 @@ func genCase(t *rapid.T) qcase.Case {
 		o := cy.DefaultOptions()
 		o.Bias = "lowerings"
 		q := cy.Generate(t, o)
+		for _, f := range q.Features {
+			if f == "template-5" && rapid.IntRange(0, 2).Draw(t, "ranked-graph") != 0 {
+				// a ranking query: a graph on which the counts per source differ pairwise
+				g = cy.RankedGraph(t)
+			}
+		}
 		c = qcase.Case{Graph: g, Query: q.Text, Params: q.Params, Features: q.Features}
 		model, err := xlate.Parse(c.Query)
 		if err == nil && rapid.IntRange(0, 2).Draw(t, "plant") != 0 {
